@@ -1,6 +1,7 @@
 //! C06, socket stream (tag 9603; child module of c06x.rs): what REALLY happens to a connection the
 //! owner accepts or rejects, on real loopback sockets, for the real `TcpTransport` and the real
-//! `WebSocketTransport` (facade `litep2p::transport::verif_sock::VerifSock`).
+//! `WebSocketTransport` (facade `litep2p::transport::verif_sock::VerifSock`), and — harness built with
+//! `--features quic`, thorough tier — the real `QuicTransport` (transport 2).
 //!
 //! Two real transports of the same kind: L (under test, driven here call by call the way the
 //! manager drives it) and R (a remote node that accepts everything and runs its connection tasks).
@@ -48,13 +49,16 @@ pub fn enc_case(tr: u64, conns: &[Conn]) -> Vec<u64> {
 }
 
 pub fn dec_case(c: &[u64]) -> Option<(u64, Vec<Conn>)> {
-    if c.len() < 3 || c[1] > 1 || c[2] > 64 || c.len() != 3 + 3 * c[2] as usize {
+    if c.len() < 3 || c[1] > 2 || c[2] > 64 || c.len() != 3 + 3 * c[2] as usize {
+        return None;
+    }
+    if c[1] == 2 && !cfg!(feature = "quic") {
         return None;
     }
     let mut v = Vec::new();
     for k in 0..c[2] as usize {
         let (kind, d1, d2) = (c[3 + 3 * k], c[4 + 3 * k], c[5 + 3 * k]);
-        if kind > 2 || d1 > 1 || d2 > 1 || (kind == 2 && d1 != 0) {
+        if kind > 2 || d1 > 1 || d2 > 1 || (kind == 2 && d1 != 0) || (kind == 2 && c[1] == 2) {
             return None;
         }
         v.push(Conn { kind, d1, d2 });
@@ -72,7 +76,7 @@ fn new_sock(tr: u64) -> (VerifSock, Multiaddr) {
         };
         let (t, a) = VerifSock::new_tcp(kp, cfg).unwrap();
         (t, a[0].clone())
-    } else {
+    } else if tr == 1 {
         let cfg = litep2p::transport::websocket::config::Config {
             listen_addresses: vec!["/ip4/127.0.0.1/tcp/0/ws".parse().unwrap()],
             reuse_port: false,
@@ -80,7 +84,24 @@ fn new_sock(tr: u64) -> (VerifSock, Multiaddr) {
         };
         let (t, a) = VerifSock::new_websocket(kp, cfg).unwrap();
         (t, a[0].clone())
+    } else {
+        new_quic(kp)
     }
+}
+
+#[cfg(feature = "quic")]
+fn new_quic(kp: Keypair) -> (VerifSock, Multiaddr) {
+    let cfg = litep2p::transport::quic::config::Config {
+        listen_addresses: vec!["/ip4/127.0.0.1/udp/0/quic-v1".parse().unwrap()],
+        ..Default::default()
+    };
+    let (t, a) = VerifSock::new_quic(kp, cfg).unwrap();
+    (t, a[0].clone())
+}
+
+#[cfg(not(feature = "quic"))]
+fn new_quic(_: Keypair) -> (VerifSock, Multiaddr) {
+    unreachable!("QUIC cases are refused by dec_case without the quic feature")
 }
 
 /// what R saw: (kind, connection id): 1 established, 2 dial failure, 3 its connection task reported closed
@@ -342,17 +363,30 @@ pub fn run(tr: u64, conns: &[Conn]) -> Vec<u64> {
     t
 }
 
-pub fn generated(rng: &mut Rng) -> (Vec<u64>, Vec<u64>) {
-    let tr = rng.below(2);
+pub fn generated(rng: &mut Rng, only_quic: bool) -> (Vec<u64>, Vec<u64>) {
+    let tr = if only_quic { 2 } else { rng.below(2) };
     let n = rng.range(2, 5);
     let conns: Vec<Conn> = (0..n)
         .map(|_| match rng.below(10) {
-            0 => Conn { kind: 2, d1: 0, d2: 0 },
+            0 if tr != 2 => Conn { kind: 2, d1: 0, d2: 0 },
+            0 => Conn { kind: 0, d1: 0, d2: 0 },
             1..=5 => Conn { kind: 0, d1: rng.chance(70) as u64, d2: rng.chance(45) as u64 },
             _ => Conn { kind: 1, d1: 1, d2: rng.chance(45) as u64 },
         })
         .collect();
     (enc_case(tr, &conns), run(tr, &conns))
+}
+
+/// every script once, for QUIC (no bare sockets: UDP)
+pub fn table_quic() -> Vec<(Vec<u64>, Vec<u64>)> {
+    let conns = [
+        Conn { kind: 0, d1: 0, d2: 0 },
+        Conn { kind: 0, d1: 1, d2: 0 },
+        Conn { kind: 0, d1: 1, d2: 1 },
+        Conn { kind: 1, d1: 1, d2: 0 },
+        Conn { kind: 1, d1: 1, d2: 1 },
+    ];
+    vec![(enc_case(2, &conns), run(2, &conns))]
 }
 
 /// every script once, per transport
